@@ -2053,7 +2053,7 @@ Lemma NoDup_sortN l : NoDup l -> NoDup (sortN l).
 Proof.
   induction l as [|m r IH]; intros H; [constructor|]. inversion H as [|y l' Hnot Hnd']; subst.
   change (sortN (m :: r)) with (insertN m (sortN r)).
-  apply NoDup_insertN; [apply IH; exact Hnd'|]. intros Hin. apply sortN_In in Hin. exact (Hnot Hin).
+  apply NoDup_insertN; [apply IH; exact Hnd'|]. intros Hin. apply (proj1 (sortN_In m r)) in Hin. exact (Hnot Hin).
 Qed.
 Lemma NoDup_map_filter {X Y} (g : X -> Y) (p : X -> bool) l : NoDup (map g l) -> NoDup (map g (filter p l)).
 Proof.
